@@ -492,7 +492,10 @@ def gen_chain(rng, n, shape=None, tail_form=None, quality=None):
         tail = {"tmpl": t}
     if shape is None:
         shape = rnd_shape(rng, 0, n + 1)
-    return {"t": "chain", "classes": classes, "elems": elems, "tail": tail, "shape": shape, "quality": quality}
+    case = {"t": "chain", "classes": classes, "elems": elems, "tail": tail, "shape": shape, "quality": quality}
+    if n >= 2 and rng.random() < 0.35:
+        case["alias"] = rng.randrange(n)
+    return case
 
 
 def gen_bind(rng):
@@ -623,11 +626,22 @@ def _base_rule(pool, interval):
     return None
 
 
-def eval_shape(shape, objs):
+def eval_shape(shape, objs, side=None):
+    """Evaluate a nesting of ``>>``.  With `side` (a non-final element template), every unfinished
+    intermediate chain is *also* continued by `side` before its real continuation and that second
+    chain is thrown away: a chain value is a value, so being continued twice must not change what
+    either continuation produces (the model's ``rshift`` is a pure function)."""
     if isinstance(shape, int):
         return objs[shape]
-    left = eval_shape(shape[0], objs)
-    right = eval_shape(shape[1], objs)
+    left = eval_shape(shape[0], objs, side)
+    right = eval_shape(shape[1], objs, side)
+    if side is not None:
+        for half in (left, right):
+            if type(half).__name__ == "PartialBind":
+                try:
+                    operator.rshift(half, side)
+                except Exception:     # noqa
+                    pass
     return operator.rshift(left, right)
 
 
@@ -662,7 +676,12 @@ def run_impl(case):
     objs = list(tmpls) if "tmpl" in case["tail"] else tmpls + [world.pools[case["tail"]["inst"]]]
     del world.log[:]
     try:
-        res = eval_shape(case["shape"], objs)
+        side = None
+        if case.get("alias") is not None and case["elems"]:
+            cand = tmpls[case["alias"] % len(case["elems"])]
+            if type(cand).__name__ == "Partial" and not cand.leaf:
+                side = cand
+        res = eval_shape(case["shape"], objs, side)
         out["result"] = {"obj": world.view(res)}
     except Exception as e:     # noqa
         out["result"] = {"err": _exc(e)}
